@@ -140,10 +140,17 @@ impl Frame {
         };
 
         // Read the payload
-        let mut payload: Vec<u8> = vec![0; length as usize];
-        stream
-            .read_exact(&mut payload)
+        // Grow the buffer as data arrives so that memory use is bounded by what the peer actually sends,
+        //   not by the length it claims.
+        let mut payload: Vec<u8> = Vec::new();
+        (&mut stream)
+            .take(length)
+            .read_to_end(&mut payload)
             .map_err(|_| WebsocketError::ReadError)?;
+
+        if payload.len() as u64 != length {
+            return Err(WebsocketError::ReadError);
+        }
 
         // Unmask the payload
         payload
